@@ -288,7 +288,7 @@ def doc_block(style: str, desc: str, params: list[tuple[str, str, str]], result:
 class PkgGen:
     def __init__(self, rng: random.Random, *, kw_rate=0.05, style="plaintext", docs=0.5, reexports=True,
                  test_dirs=False, private_rate=0.2, infer_returns=0.15, n_modules=(2, 4), root_name="pkg",
-                 cross_refs=True, doc_types="none", unique_top_names=True, ties=0.0, aliases=0.0, chains=0.0, decoys=0.0):
+                 cross_refs=True, doc_types="none", unique_top_names=True, ties=0.0, aliases=0.0, chains=0.0, decoys=0.0, dual=0.0):
         self.r = rng
         self.names = Names(rng, kw_rate)
         self.style = style
@@ -315,6 +315,8 @@ class PkgGen:
         # rate of packages with a RELATIVE re-export from a private module of the root package plus a decoy module with the
         # same trailing path and the same declaration names in a sub-package (which stays private)
         self.decoys = decoys
+        # rate of packages whose root __init__ re-exports one module BOTH under an alias and by a wildcard import
+        self.dual = dual
         self.global_used: set = set()
         self.counter = 0
 
@@ -694,6 +696,14 @@ class PkgGen:
                   "functions": [f], "enums": [], "doc": "", "imports": set(), "aliases": False, "overload_fn": False,
                   "plain_imports": [mb["qname"]]}
             modules += [ma, mb, mu]
+        if self.dual > 0 and (len(modules[0]["name"]) * 3 + len(modules)) % 100 < self.dual * 100:
+            # `from pkg import _impl as zz_helpers` + `from pkg._impl import *`: the re-export set of that module holds
+            # (package, alias) and (package, None) — a tie on the package id that only the alias can break.  No draws.
+            cands = [m for m in modules if m["pkg"] == [self.root] and not (set([m["name"]]) & EXCL)]
+            if cands:
+                m = sorted(cands, key=lambda x: (not x["name"].startswith("_"), x["name"]))[0]
+                inits[(self.root,)].append({"form": "module", "module": m["qname"], "name": m["name"], "alias": "zz_helpers"})
+                inits[(self.root,)].append({"form": "star", "module": m["qname"]})
         sub = [p for p in pkgs if len(p) == 2 and not (set(p) & EXCL)]
         if self.decoys > 0 and sub and (len(modules[0]["name"]) * 7 + len(modules)) % 100 < self.decoys * 100:
             def zz_module(pk):
